@@ -293,3 +293,8 @@ def r8_5(prog, rep):
         f"under 'drop' the design can receive {sorted({x[1] for x in bad})[:2]}")
     srt = [x for x in calls_in(dm.node, local=False) if isinstance(x.func, ast.Attribute) and x.func.attr in ("sort_values", "sort_index", "reset_index", "sample", "reindex")]
     obl(rep, dm, srt[0] if srt else dm.node, "R8.5", not srt, "design_matrices never sorts, samples or re-indexes the rows")
+
+
+from ..core import guard_rules  # noqa: E402
+
+guard_rules(globals())
